@@ -183,10 +183,17 @@ class Client(object):
     def exists(self, path, watch=None):
         return self.store.stat(path) if path in self.store.nodes else None
 
+    vanish_on_read = None      # a node that somebody else deletes right after this client's next read of it
+
     def get(self, path, watch=None):
         if path not in self.store.nodes:
             raise ke.NoNodeError()
-        return self.store.nodes[path].data, self.store.stat(path)
+        out = self.store.nodes[path].data, self.store.stat(path)
+        if path == self.vanish_on_read:
+            type(self).vanish_on_read = None
+            self.vanish_on_read = None
+            del self.store.nodes[path]
+        return out
 
     def get_children(self, path, watch=None):
         if path not in self.store.nodes:
